@@ -351,8 +351,12 @@ Definition replace_const_values (m : model) : model :=
   (* a constant without a value is substituted by NaN: outside the model *)
   if existsb (fun '(_, v) => match v with None => true | _ => false end) (consts m) then set_failed m
   else
-  let r' := fold_left (fun r '(x, _) => arel_remove x r) (consts m) (arel m) in
-  let dropped := flat_map (fun '(x, e) => map (fun '(a, neg) => (a, sgn neg e)) (cls_of x (arel m))) s in
+  let cn := map fst (consts m) in
+  let r' := filter (fun cl => negb (mem (fst cl) cn)) (arel m) in
+  let dropped := flat_map (fun cl => match lookup (fst cl) s with
+                                     | Some e => map (fun '(a, neg) => (a, sgn neg e)) (snd cl)
+                                     | None => [] end)
+                          (filter (fun cl => mem (fst cl) cn) (arel m)) in
   Model (states m) (ders m) (algs m) (inputs m) [] (subst_vals s (params m))
         (map (subst s) (eqs m)) (map (subst s) (ieqs m)) r' (ghost m ++ s ++ dropped)
         (warned m || negb conv) (failed m).
@@ -435,20 +439,21 @@ Fixpoint canon (r : list acls) (x : name) : name * bool :=
       else match lookup x ms with Some n => (c, n) | None => canon r' x end
   end.
 
-(* AliasRelation.add(a, [-]b): a positive, b carries the sign `nb` *)
-Definition arel_add (r : list acls) (a b : name) (nb : bool) : list acls :=
+(* AliasRelation.add(a, [-]b): a positive, b carries the sign `nb`.  The relation is a list of
+   entries (canonical, members); several entries may share a canonical (their union is the class).
+   None: a and b are already aliases with the OPPOSITE sign (both are zero). *)
+Definition members_of (c : name) (r : list acls) : list (name * bool) :=
+  flat_map snd (filter (fun cl => Pos.eqb (fst cl) c) r).
+Definition arel_add (r : list acls) (a b : name) (nb : bool) : option (list acls) :=
   let '(ca, na) := canon r a in
   let '(cb, nb0) := canon r b in
-  if Pos.eqb ca cb then r     (* already aliases (or a contradictory pair: left alone) *)
+  if Pos.eqb ca cb then
+    (if Bool.eqb na (xorb nb nb0) then Some r (* already aliases, nothing more to do *) else None)
   else
     (* cb = flip * ca *)
     let flip := xorb na (xorb nb nb0) in
-    let moved := (cb, flip) :: map (fun '(v, n) => (v, xorb n flip)) (cls_of cb r) in
-    let r1 := arel_remove cb r in
-    match lookup ca r1 with
-    | Some ms => map (fun cl => if Pos.eqb (fst cl) ca then (ca, ms ++ moved) else cl) r1
-    | None => r1 ++ [(ca, moved)]
-    end.
+    let moved := (cb, flip) :: map (fun '(v, n) => (v, xorb n flip)) (members_of cb r) in
+    Some (arel_remove cb r ++ [(ca, moved)]).
 
 (* _detect_alias: the two symbols and whether the alias is negative *)
 Definition detect_alias (pc : list name) (e : expr) : option (name * name * bool) :=
@@ -494,7 +499,9 @@ Definition make_alias (allow_der : bool) (al dl dne : list name) (r : list acls)
         if mem d0 al && mem d1 al && mem (fst (canon r a0)) dne then (o0, a0) else (a0, o0) in
       if negb allow_der && (mem a dl || mem o dl) then None
       else if mem (fst (canon r a)) dne && mem (fst (canon r o)) dne then None
-      else Some (arel_add r o a neg)
+      else arel_add r o a neg
+           (* None = contradictory pair: the equation is kept
+              (fixes/C14_contradictory_alias_keeps_equation.diff) *)
   end.
 
 Fixpoint da_loop (allow_der : bool) (al dl dne pc : list name) (r : list acls) (es : list expr)
@@ -585,8 +592,11 @@ Definition mem_eqb (a b : name * bool) : bool := Pos.eqb (fst a) (fst b) && Bool
 Definition cls_eqb (a b : acls) : bool :=
   Pos.eqb (fst a) (fst b) && incl_b mem_eqb (snd a) (snd b) && incl_b mem_eqb (snd b) (snd a)
   && Nat.eqb (length (snd a)) (length (snd b)).
+Fixpoint nodup_names (l : list name) : list name :=
+  match l with [] => [] | x :: l' => if mem x l' then nodup_names l' else x :: nodup_names l' end.
 Definition nonempty_classes (r : list acls) : list acls :=
-  filter (fun cl => match snd cl with [] => false | _ => true end) r.
+  filter (fun cl => match snd cl with [] => false | _ => true end)
+         (map (fun c => (c, members_of c r)) (nodup_names (map fst r))).
 Definition const_eqb (a : name * pval) (b : name * option Qc) : bool :=
   Pos.eqb (fst a) (fst b) &&
   match snd a, snd b with
